@@ -441,10 +441,8 @@ impl<'a> Name<'a> {
 
 impl<'a> Display for Label<'a> {
     fn fmt(&self, f: &mut std::fmt::Formatter<'_>) -> std::fmt::Result {
-        match std::str::from_utf8(&self.data) {
-            Ok(s) => f.write_str(s),
-            Err(_) => Err(std::fmt::Error),
-        }
+        // labels parsed from the wire may hold arbitrary bytes
+        f.write_str(&String::from_utf8_lossy(&self.data))
     }
 }
 
